@@ -46,6 +46,10 @@ Section SrcDen.
     SrcDen (S (S f)) (PGeom (VInt a) (VInt a) (AV (VInt m)) (VInt (Z.of_nat n)) 0) (Fin (ref_geom a m n)).
   Proof. apply SrcDen_iff. apply geom_den. Qed.
 
+  Theorem src_sequence_den f (l : list val) (r : nat) :
+    SrcDen (S (S f)) (PSequence (AL (map AV l)) (AV (VInt (Z.of_nat r))) 0 0) (Fin (ref_sequence l r)).
+  Proof. apply SrcDen_iff. apply sequence_den. Qed.
+
   Theorem src_constant_den f c : SrcDen (S f) (PConstant c) (Inf (fun _ => c)).
   Proof. apply SrcDen_iff. apply constant_den. Qed.
 
